@@ -3,7 +3,7 @@ CONSTANTS
   Pairwise = FALSE
   MaxLabel = 63
   MaxName = 255
-  Alphabet = {0, 97, 46, 92, 61, 128, 195, 169, 255}
+  Alphabet = {0, 34, 59, 97, 46, 92, 61, 128, 195, 169, 255}
   L = 4
 INVARIANT RefOK
 INVARIANT Emit
